@@ -250,6 +250,12 @@ build, then `break`s. -/
 def airLoop {β κ ν α : Type} (tryBuild : β → κ → ν → Option α) (builders : List β) (base : List (κ × ν)) : List α :=
   builders.filterMap fun b => base.findSome? fun kv => tryBuild b kv.1 kv.2
 
+/-- The loop as repaired in /repo 9b88fce: the entries of `non_primitive_base` are first sorted by op type
+(`sort_unstable_by` on the `Ord` of `NpoTypeId`; keys of a map are distinct, so stability is immaterial).
+Op types are modelled by any key type with a decidable total order (here `Nat` codes). -/
+def airLoopSorted {β ν α : Type} (tryBuild : β → Nat → ν → Option α) (builders : List β) (base : List (Nat × ν)) : List α :=
+  airLoop tryBuild builders (base.mergeSort fun a b => decide (a.1 ≤ b.1))
+
 /-- `ext_reads: Vec<u32>`: length and content (`resize(i + 1, 0)` then `+= 1`). -/
 structure Reads where
   len : Nat
